@@ -681,7 +681,7 @@ def settings(rng, base, dtype=None):
         out[k]['positional'] = True
     elif r < 0.60:
         out.append(dict(base, what='paths', scheme=str(rng.choice(['subtract', 'bottleneck'])), num_paths=None,
-                        cutoff=2.0, via='helpers', **variant))
+                        cutoff=1e9, via='helpers', **variant))   # the helper chain has no cut-off
     out.append(dict(base, what='top_path', **variant))
     return out
 
@@ -852,7 +852,7 @@ def run(ctx):
             for npth in (None, 1, 2):
                 cases.append(dict(base, what='paths', scheme=scheme, num_paths=npth, cutoff=None))
         cases.append(dict(base, what='top_path'))
-    ng = ctx.n(1000, 20000)
+    ng = ctx.n(1500, 20000)
     for g in range(ng):
         r = rng.random()
         if r < 0.40:
@@ -862,7 +862,7 @@ def run(ctx):
         else:
             base = gen_degenerate(rng)
         cases += settings(rng, base)
-    nt = ctx.n(200, 4000)
+    nt = ctx.n(300, 4000)
     for g in range(nt):
         cases += settings(rng, gen_neartie(rng), dtype='float64')
     # the F16 diamond and the upstream graph at MSM-like magnitudes (1e-9 .. 1e-12)
@@ -871,14 +871,14 @@ def run(ctx):
             for scheme in ('subtract', 'bottleneck'):
                 cases.append(dict(base, what='paths', scheme=scheme, num_paths=None, cutoff=None, scale=sc))
     # audit families: degenerate structure, exactly reached cut-offs, > 255 states
-    for g in range(ctx.n(60, 1500)):
+    for g in range(ctx.n(100, 1500)):
         cases += settings(rng, gen_structure(rng))
-    for g in range(ctx.n(60, 1500)):
+    for g in range(ctx.n(100, 1500)):
         base, cut = gen_exact_cutoff(rng)
         for scheme in ('subtract', 'bottleneck'):
             cases.append(dict(base, what='paths', scheme=scheme, num_paths=None, cutoff=cut,
                               **pick_variant(rng, base)))
-    for g in range(ctx.n(3, 30)):
+    for g in range(ctx.n(4, 30)):
         cases += gen_large(rng, ctx.thorough)
     probe_unsupported(ctx)
     run_cases(ctx, cases)
